@@ -29,6 +29,26 @@ TARGETS = {
              args=["u", "p2"], params={}, atoms={"self.u": "u"},
              param_assigns={"p2": "getattr(self, 'rate_error_2', 0.0001)"}),
     ],
+    "nnm_products": [
+        dict(name="alpha_factor", file="shangrla/core/NonnegMean.py", func="NonnegMean.alpha_mart",
+             args=["u", "x", "etaj", "m"], params={"x": "x", "etaj": "etaj", "m": "m", "u": "u"}, atoms={},
+             result="terms", mentions=["etaj"], inner_call="np.cumprod"),
+        dict(name="betting_factor", file="shangrla/core/NonnegMean.py", func="NonnegMean.betting_mart",
+             args=["x", "lam", "m"], params={"x": "x", "lam": "lam", "m": "m"}, atoms={},
+             result="terms", mentions=["lam"], inner_call="np.cumprod"),
+        dict(name="kw_factor", file="shangrla/core/NonnegMean.py", func="NonnegMean.kaplan_wald",
+             args=["g", "x", "t"], params={"x": "x", "g": "g", "t": "t"}, atoms={},
+             result="p_history", mentions=["g"], inner_call="np.cumprod"),
+        dict(name="km_factor", file="shangrla/core/NonnegMean.py", func="NonnegMean.kaplan_markov",
+             args=["g", "x", "t"], params={"x": "x", "g": "g", "t": "t"}, atoms={},
+             result="p_history", mentions=["g"], inner_call="np.cumprod"),
+        dict(name="kk_ratio", file="shangrla/core/NonnegMean.py", func="NonnegMean.kaplan_kolmogorov",
+             args=["g", "x", "m"], params={"x": "x", "g": "g", "m": "m"}, atoms={},
+             result="ratio", mentions=["g"]),
+        dict(name="null_mean", file="shangrla/core/NonnegMean.py", func="NonnegMean.sjm",
+             args=["N", "t", "S", "j"], params={"N": "N", "t": "t", "S": "S", "j": "j"}, atoms={},
+             result="m", mentions=["S"], ifexp_test="np.isfinite(N)", ifexp_else="t"),
+    ],
     "audit": [
         dict(name="overstatement_assorter", file="shangrla/core/Audit.py", func="Assertion.overstatement_assorter",
              args=["omega", "ua", "v"], params={},
@@ -140,7 +160,7 @@ def translate_block(target, fn):
     for blk in blocks(fn.body):
         for i, st in enumerate(blk):
             if isinstance(st, ast.Assign) and len(st.targets) == 1 and ast.unparse(st.targets[0]) == want \
-                    and not isinstance(st.value, (ast.Name, ast.Attribute, ast.Constant)) \
+                    and (not isinstance(st.value, (ast.Name, ast.Attribute, ast.Constant)) or target.get("allow_simple")) \
                     and all(m in ast.unparse(st.value) for m in mentions):
                 found.append((blk, i))
     if len(found) != 1:
@@ -156,7 +176,18 @@ def translate_block(target, fn):
         name = ast.unparse(st.targets[0])
         lets.append((name, expr(st.value, env, target["atoms"])))
         env[name] = f"v_{name}"
-    body = expr(blk[i].value, env, target["atoms"])
+    val = blk[i].value
+    if target.get("inner_call"):     # e.g. terms = np.cumprod(<expr>): translate the argument
+        if not (isinstance(val, ast.Call) and ast.unparse(val.func) == target["inner_call"] and len(val.args) == 1 and not val.keywords):
+            raise TranslationError(f"{target['func']}: {want} is no longer {target['inner_call']}(<expr>)")
+        val = val.args[0]
+    if target.get("ifexp_test"):     # e.g. m = (<expr> if np.isfinite(N) else t): translate the first branch
+        if not (isinstance(val, ast.IfExp) and ast.unparse(val.test) == target["ifexp_test"]):
+            raise TranslationError(f"{target['func']}: {want} is no longer `<expr> if {target['ifexp_test']} else ...`")
+        if ast.unparse(val.orelse) != target["ifexp_else"]:
+            raise TranslationError(f"{target['func']}: the else branch of {want} is no longer {target['ifexp_else']}")
+        val = val.body
+    body = expr(val, env, target["atoms"])
     for name, e in reversed(lets):
         body = f"let v_{name} := {e} in\n  {body}"
     args = " ".join(target["args"])
